@@ -109,37 +109,55 @@ def _preimport():
 # ---------------------------------------------------------------------------------------------- data bursts
 
 
-def oracle_data(case):
-    """case = {kind, variant, f: {field: value}, cc, sync}"""
+def _lib():
     from okdmr.dmrlib.etsi.layer2.burst import Burst
     from okdmr.dmrlib.etsi.layer2.elements.burst_types import BurstTypes
     from okdmr.dmrlib.etsi.layer2.elements.data_types import DataTypes
     from okdmr.dmrlib.etsi.layer2.elements.sync_patterns import SyncPatterns
     from okdmr.dmrlib.etsi.layer2.pdu.slot_type import SlotType
 
-    kind, variant, f, cc, sync = case["kind"], case["variant"], case["f"], case["cc"], case["sync"]
-    dt = DataTypes[G.DATA_TYPE_OF_KIND[kind]]
-    sp = SyncPatterns[sync]
-    if sp.value != DATA_SYNCS[sync]:
-        raise Fail("sync_constant_equals_table_9_2", "%012X" % sp.value, "%012X" % DATA_SYNCS[sync], klass=sync)
+    return Burst, BurstTypes, DataTypes, SyncPatterns, SlotType
 
-    st, pdu = call(G.build, kind, variant, f)
-    st, pb = call(pdu.as_bits)
-    pdu_bits = _ba(pb)
-    _SIDE["nonzero"] = pdu_bits.any()
 
-    def assemble():
-        b = Burst(burst_type=BurstTypes.DataAndControl)
-        b.has_emb = False
-        b.sync_or_embedded_signalling = sp
-        b.slot_type = SlotType(colour_code=cc, data_type=dt)
-        b.data = pdu
-        return b.as_bytes()
+def _new_burst(pdu, cc, dt, sp):
+    """the library's own assembly idiom (TransmissionGenerator)"""
+    Burst, BurstTypes, DataTypes, SyncPatterns, SlotType = _lib()
+    b = Burst(burst_type=BurstTypes.DataAndControl)
+    b.has_emb = False
+    b.sync_or_embedded_signalling = sp
+    b.slot_type = SlotType(colour_code=cc, data_type=dt)
+    b.data = pdu
+    return b
 
-    st, raw = call(assemble)
+
+def _as_33_bytes(b) -> bytes:
+    st, raw = call(b.as_bytes)
     if not isinstance(raw, (bytes, bytearray)) or len(raw) != 33:
         raise Fail("serialised_burst_is_33_bytes", len(raw) if hasattr(raw, "__len__") else repr(raw), 33)
-    raw = bytes(raw)
+    return bytes(raw)
+
+
+def _repeat_after_scribble(fn, what: str):
+    """scribble-and-repeat: call fn() (no arguments, returns a bitarray), invert every bit of the RETURNED buffer in
+    place, call again: the second result must equal the first (a cache that hands out its own buffer fails here)."""
+    st, r1 = call(fn)
+    saved = _ba(r1)
+    if isinstance(r1, bitarray):
+        r1.invert()
+    st, r2 = call(fn)
+    if _ba(r2) != saved:
+        raise Fail("repeated_call_equal_after_scribbling_on_returned_buffer", _diffpos(_ba(r2), saved), "no difference", klass=what)
+    return saved
+
+
+def _check_serialised(kind, variant, cc, sync, pdu, raw: bytes):
+    """every clause of the statement's first sentence for one serialisation `raw` of (pdu, cc, sync): independent layout
+    reference, parse back (data type, colour code, sync, payload fields), re-assembly."""
+    Burst, BurstTypes, DataTypes, SyncPatterns, SlotType = _lib()
+    dt = DataTypes[G.DATA_TYPE_OF_KIND[kind]]
+    sp = SyncPatterns[sync]
+    st, pb = call(pdu.as_bits)
+    pdu_bits = _ba(pb)
     bits = _from_bytes(raw)
     # field values of the object that was serialised (taken after serialising: a check field the library fills in while
     # serialising belongs to what was sent)
@@ -195,6 +213,227 @@ def oracle_data(case):
     st, raw2 = call(p.as_bytes)
     if bytes(raw2) != raw:
         raise Fail("reassembled_bytes_identical", _diffpos(_from_bytes(bytes(raw2)), bits), "no difference", klass=kind)
+    return p
+
+
+def oracle_data(case):
+    """case = {kind, variant, f: {field: value}, cc, sync}"""
+    Burst, BurstTypes, DataTypes, SyncPatterns, SlotType = _lib()
+    kind, variant, f, cc, sync = case["kind"], case["variant"], case["f"], case["cc"], case["sync"]
+    dt = DataTypes[G.DATA_TYPE_OF_KIND[kind]]
+    sp = SyncPatterns[sync]
+    if sp.value != DATA_SYNCS[sync]:
+        raise Fail("sync_constant_equals_table_9_2", "%012X" % sp.value, "%012X" % DATA_SYNCS[sync], klass=sync)
+
+    st, pdu = call(G.build, kind, variant, f)
+    st, pb = call(pdu.as_bits)
+    _SIDE["nonzero"] = _ba(pb).any()
+    st, b = call(_new_burst, pdu, cc, dt, sp)
+    raw = _as_33_bytes(b)
+    p = _check_serialised(kind, variant, cc, sync, pdu, raw)
+
+    # scribble-and-repeat on every buffer the serialisers hand out
+    _repeat_after_scribble(pdu.as_bits, "pdu.as_bits")
+    _repeat_after_scribble(b.as_bits, "assembled_burst.as_bits")
+    _repeat_after_scribble(p.as_bits, "parsed_burst.as_bits")
+    if _as_33_bytes(b) != raw or _as_33_bytes(p) != raw:
+        raise Fail("repeated_call_equal_after_scribbling_on_returned_buffer", "as_bytes differs", raw.hex(), klass="as_bytes")
+
+
+# ---------------------------------------------------------------------------------------------- reuse of objects
+
+_RATE_KINDS = ("rate12", "rate34", "rate1")
+
+
+def _inplace_ok(old, fresh) -> bool:
+    """copying a fresh object's attribute dict into an old object of the same class is indistinguishable from a fresh
+    object for plain Python objects: not for __slots__ classes, nor when the fresh object refers to itself"""
+    if type(old) is not type(fresh) or not hasattr(old, "__dict__"):
+        return False
+    if any("__slots__" in vars(k) for k in type(old).__mro__ if k is not object):
+        return False
+    return not any(v is fresh for v in vars(fresh).values())
+
+
+def _become(old, fresh):
+    old.__dict__.clear()
+    old.__dict__.update(fresh.__dict__)
+
+
+def _warm(b):
+    """everything that serialises (and could populate a cache): as_bytes, as_bits, repr, debug.  repr of some PDUs raises
+    on payloads it cannot print (talker alias text that is not ASCII): irrelevant here, swallowed."""
+    raw = _as_33_bytes(b)
+    call(b.as_bits)
+    for fn in (lambda: repr(b), lambda: b.debug(printout=False)):
+        try:
+            fn()
+        except Exception:
+            pass
+    return raw
+
+
+def oracle_reuse(case):
+    """case = {kind, variant, f, cc, sync,  kind2, variant2, f2, cc2, sync2}.  State 1 is assembled and serialised (as_bytes,
+    as_bits, repr, debug), then THE SAME Burst object is made to carry state 2 - touching only what differs, the way the
+    assembly idiom sets it - and serialised again; then it is taken back to state 1.  Each serialisation must equal the
+    bytes of a freshly assembled burst of that state (which itself must satisfy every clause of data_grid).
+      replace : b.data = fresh PDU 2;  b.slot_type = fresh SlotType;  b.sync_or_embedded_signalling = sync 2
+      inplace : the old PDU / SlotType objects stay (b.data is p1) and receive the attribute dict of a fresh object
+      parsed  : as replace, but the reused Burst came out of Burst.from_bytes(bytes of state 1)
+    Mirror on the parse side: serialising one parsed burst does not influence parsing / serialising another."""
+    Burst, BurstTypes, DataTypes, SyncPatterns, SlotType = _lib()
+    s1 = (case["kind"], case["variant"], case["f"], case["cc"], case["sync"])
+    s2 = (case["kind2"], case["variant2"], case["f2"], case["cc2"], case["sync2"])
+
+    def parts(s):
+        kind, variant, f, cc, sync = s
+        return DataTypes[G.DATA_TYPE_OF_KIND[kind]], SyncPatterns[sync]
+
+    def fresh(s):
+        kind, variant, f, cc, sync = s
+        dt, sp = parts(s)
+        st, pdu = call(G.build, kind, variant, f)
+        st, b = call(_new_burst, pdu, cc, dt, sp)
+        return pdu, _as_33_bytes(b)
+
+    pdu1, bytes1 = fresh(s1)
+    pdu2, bytes2 = fresh(s2)
+    _SIDE["nonzero"] = bytes1 != bytes2
+    # the fresh serialisations are what data_grid judges; judge them here too so that "equal to fresh" means "right"
+    _check_serialised(s1[0], s1[1], s1[3], s1[4], pdu1, bytes1)
+    _check_serialised(s2[0], s2[1], s2[3], s2[4], pdu2, bytes2)
+    if fresh(s1)[1] != bytes1:
+        raise Fail("fresh_assembly_repeatable", "two fresh assemblies of the same case differ", "equal bytes")
+
+    def retarget(b, src, dst, mode):
+        """make burst b (currently in state src) carry state dst, touching only what differs"""
+        (k_a, v_a, f_a, cc_a, sy_a), (k_b, v_b, f_b, cc_b, sy_b) = src, dst
+        dt_a, sp_a = parts(src)
+        dt_b, sp_b = parts(dst)
+        changed = []
+        if (k_a, v_a, f_a) != (k_b, v_b, f_b):
+            st, new_pdu = call(G.build, k_b, v_b, f_b)
+            if mode == "inplace" and _inplace_ok(b.data, new_pdu):
+                old = b.data
+                _become(old, new_pdu)
+                assert b.data is old
+                changed.append("payload_in_place")
+            else:
+                b.data = new_pdu
+                changed.append("payload_replaced")
+        if (cc_a, dt_a) != (cc_b, dt_b):
+            st, new_slot = call(SlotType, colour_code=cc_b, data_type=dt_b)
+            if mode == "inplace" and _inplace_ok(b.slot_type, new_slot):
+                _become(b.slot_type, new_slot)
+                changed.append("slot_type_in_place")
+            else:
+                b.slot_type = new_slot
+                changed.append("slot_type_replaced")
+        if sy_a != sy_b:
+            b.sync_or_embedded_signalling = sp_b
+            changed.append("sync")
+        return "+".join(changed) or "nothing"
+
+    for mode in ("replace", "inplace", "parsed"):
+        if mode == "parsed":
+            st, b = call(Burst.from_bytes, bytes1)
+        else:
+            dt1, sp1 = parts(s1)
+            st, p1 = call(G.build, *s1[:3])
+            st, b = call(_new_burst, p1, s1[3], dt1, sp1)
+        first = _warm(b)
+        if first != bytes1:
+            raise Fail("reused_burst_serialises_current_state", {"step": "initial", **_diffpos(_from_bytes(first), _from_bytes(bytes1))}, "bytes of a freshly assembled burst", klass=mode)
+        what = retarget(b, s1, s2, "replace" if mode == "parsed" else mode)
+        second = _warm(b)
+        if second != bytes2:
+            raise Fail("reused_burst_serialises_current_state", {"step": "state 1 -> 2", "changed": what, **_diffpos(_from_bytes(second), _from_bytes(bytes2))}, "bytes of a freshly assembled burst", klass=mode)
+        what = retarget(b, s2, s1, "replace" if mode == "parsed" else mode)
+        third = _as_33_bytes(b)
+        if third != bytes1:
+            raise Fail("reused_burst_serialises_current_state", {"step": "state 2 -> 1", "changed": what, **_diffpos(_from_bytes(third), _from_bytes(bytes1))}, "bytes of a freshly assembled burst", klass=mode)
+
+    # parse side: bursts are independent of each other
+    st, x = call(Burst.from_bytes, bytes1)
+    _warm(x)
+    st, y = call(Burst.from_bytes, bytes2)
+    if _as_33_bytes(y) != bytes2:
+        raise Fail("parsed_bursts_independent", "second parsed burst does not serialise to its own bytes", bytes2.hex(), klass="second")
+    if _as_33_bytes(x) != bytes1:
+        raise Fail("parsed_bursts_independent", "first parsed burst changed after a second one was parsed", bytes1.hex(), klass="first")
+
+
+def _reuse_case(rng, kind, variant):
+    """second state: which of payload / colour code / sync change is drawn uniformly from the 7 non-empty subsets; a changed
+    payload is new field values of the same variant (50 %), another variant of the same PDU class (25 %) or a variant of
+    another class, i.e. another data type (25 %)."""
+    f = G.rng_fields(rng, kind, variant)
+    cc, sync = rng.randrange(16), rng.choice(SYNC_NAMES)
+    mask = rng.randrange(1, 8)
+    kind2, variant2, f2, cc2, sync2 = kind, variant, f, cc, sync
+    if mask & 1:
+        r = rng.random()
+        if r >= 0.5:
+            same_cls = [kv for kv in G.VARIANTS if G.expected_class_name(kv[0]) == G.expected_class_name(kind) and kv != (kind, variant)]
+            other_cls = [kv for kv in G.VARIANTS if G.expected_class_name(kv[0]) != G.expected_class_name(kind)]
+            pool = same_cls if (r < 0.75 and same_cls) else other_cls
+            kind2, variant2 = rng.choice(pool)
+        f2 = G.rng_fields(rng, kind2, variant2)
+    if mask & 2:
+        cc2 = rng.choice([c for c in range(16) if c != cc])
+    if mask & 4:
+        sync2 = rng.choice([s for s in SYNC_NAMES if s != sync])
+    return {"kind": kind, "variant": variant, "f": f, "cc": cc, "sync": sync, "kind2": kind2, "variant2": variant2, "f2": f2, "cc2": cc2, "sync2": sync2}
+
+
+def _tally_reuse(sub, c, t: Tally):
+    ch = []
+    if (c["kind"], c["variant"]) != (c["kind2"], c["variant2"]):
+        ch.append("other_class" if G.expected_class_name(c["kind"]) != G.expected_class_name(c["kind2"]) else "other_variant")
+    elif c["f"] != c["f2"]:
+        ch.append("fields")
+    if c["cc"] != c["cc2"]:
+        ch.append("cc")
+    if c["sync"] != c["sync2"]:
+        ch.append("sync")
+    t.case(sub, key=None, nontrivial=False, cls="changes:" + ("+".join(ch) or "nothing"))
+    t.cls(sub, "first:" + G.expected_class_name(c["kind"]))
+    if _SIDE.get("nonzero", True):
+        t.nt_hashes.add(digest([sub, c]))
+    t.sample(sub, c)
+
+
+def drv_reuse(ctx: Ctx, sub: SubCheck):
+    _preimport()
+    from hypothesis import strategies as st
+
+    k = ctx.pick(6, 40)
+    items = [(kind, variant, j) for (kind, variant) in G.VARIANTS for j in range(k)]
+
+    def work(chunk, t: Tally):
+        for kind, variant, j in chunk:
+            c = _reuse_case(ctx.rng("reuse", kind, variant, j), kind, variant)
+            _SIDE.clear()
+            ctx.run_case(sub.name, oracle_reuse, c, t)
+            _tally_reuse(sub.name, c, t)
+
+    ctx.shards(work, [items[i::64] for i in range(64)])
+
+    # Hypothesis: same variant, two independent field draws, colour code and sync drawn twice
+    def strat(kind, variant):
+        return st.fixed_dictionaries(
+            {
+                "kind": st.just(kind), "variant": st.just(variant), "f": G.st_fields(kind, variant), "cc": st.integers(0, 15), "sync": st.sampled_from(SYNC_NAMES),
+                "kind2": st.just(kind), "variant2": st.just(variant), "f2": G.st_fields(kind, variant), "cc2": st.integers(0, 15), "sync2": st.sampled_from(SYNC_NAMES),
+            }
+        )
+
+    def hyp(kv, t: Tally):
+        kind, variant = kv
+        ctx.hypothesis(sub.name, strat(kind, variant), oracle_reuse, ctx.pick(4, 60), tally=t, shard=f"{kind}/{variant}", record=lambda c, tt: _tally_reuse(sub.name, c, tt))
+
+    ctx.shards(hyp, list(G.VARIANTS))
 
 
 def _record_data(sub):
@@ -387,6 +626,7 @@ def drv_voice_random(ctx: Ctx, sub: SubCheck):
 SUBCHECKS = [
     SubCheck("data_grid", oracle_data, drv_data_grid, "every PDU variant x colour code x data sync (by construction), seeded random fields: layout reference, parse, field equality, re-assembly"),
     SubCheck("data_random", oracle_data, drv_data_random, "Hypothesis-drawn (variant, fields, colour code, sync): same oracle"),
+    SubCheck("reuse", oracle_reuse, drv_reuse, "stale state on reused objects: one Burst (assembled or parsed) carries state 1, is serialised (as_bytes/as_bits/repr/debug), is re-targeted to state 2 (payload replaced or rewritten in place, slot type, sync) and back: every serialisation equals a freshly assembled burst"),
     SubCheck("voice_grid", oracle_voice, drv_voice_grid, "all 128 (cc, PI, LCSS) EMB codewords and the 4 voice syncs x random vocoder/embedded bits: parse-then-serialise is the identity"),
     SubCheck("voice_random", oracle_voice, drv_voice_random, "Hypothesis-drawn voice bursts (both centre kinds): same oracle"),
 ]
